@@ -321,6 +321,9 @@ func propose(r *sim.Rand, ids *idAlloc, av []avail, x avail, o *genOpts) []sim.S
 		}
 		dim := r.Intn(rank)
 		n := r.Range(2, 3)
+		if r.Bool(0.1) {
+			n = r.Range(4, 9)
+		}
 		st.Op = "concat"
 		st.I = []int{dim}
 		var pre []sim.Step
